@@ -140,6 +140,11 @@ func init() {
 				}
 			}
 			rec(Doc{}, 0)
+			// close to the limit of the property (total below 2^28 ticks = 279,620 beats)
+			cases = append(cases,
+				Case{"doc": Doc{ch(Frac{100000, 1}), rs(Frac{150000, 1}), ch(Frac{1, 3})}, "flags": Flags{}},
+				Case{"doc": Doc{rs(Frac{279000, 1}), ch(Frac{500, 1}), rs(Frac{1, 7})}, "flags": Flags{}, "tracks": 3},
+				Case{"doc": Doc{ch(Frac{1, 3}, Frac{90000, 1}, Frac{1, 3}), ch(Frac{180000, 7})}, "flags": Flags{}})
 			for i := 0; i < nr; i++ {
 				o := GenOpt{MaxLen: maxLen, RestP: 0.3, KeyP: 0.05, SettingP: 0.05, Fractions: true, MultiVals: true, MaxDeg: 7, BassP: 0.2,
 					Syms: []string{"", "m", "7", "maj7", "sus4"}, BigVals: i%5 == 0}
